@@ -61,6 +61,20 @@ def columns_start():
                    F('author', 'FK', to='va.Author', null=True)])]))
 
 
+def explicit_pk_start():
+    """A referenced model with an explicit primary key (which can be
+    renamed) and a model referring to it."""
+    # the referring model sorts BEFORE the referenced one (operations are
+    # regrouped per model in name order)
+    return P(A('va', [
+        M('Person', [F('code', 'Int', primary_key=True),
+                     F('name', 'Char', max_length=20),
+                     F('boss', 'FK', to='va.Person', null=True)]),
+        M('Book', [F('title', 'Char', max_length=20),
+                   F('owner', 'FK', to='va.Person', null=True)]),
+        M('Zine', [F('owner', 'FK', to='va.Person', null=True)])]))
+
+
 def indexed_start():
     """Fields that already carry a unique constraint / an index, so that
     the *removing* attribute changes are in the menu from the first step."""
@@ -720,7 +734,8 @@ def work(task):
     pr = PathRunner(start, rows, ways)
     bv = bool(opts.pop('barrier_variants', False)) if opts else False
     pr.dfs(depth, level, kinds, prefix_filter=first, barrier_variants=bv,
-           **{k: tuple(v) for k, v in opts.items()})
+           **{k: (tuple(v) if isinstance(v, list) else v)
+              for k, v in opts.items()})
     return name, pr.stats, pr.viol3, pr.viol18
 
 
@@ -737,7 +752,8 @@ def tasks_for(tier):
             return
         firsts = AL.enabled(start, level=level, kinds=kinds, **opts)
         for i, st in enumerate(firsts):
-            o = {k: list(v) for k, v in opts.items()}
+            o = {k: (list(v) if isinstance(v, (list, tuple)) else v)
+                 for k, v in opts.items()}
             if barrier_variants:
                 o['barrier_variants'] = True
             tasks.append(('%s#%d' % (name, i), start, rows, depth, level,
@@ -758,6 +774,11 @@ def tasks_for(tier):
         shard('columns-barrier-d2', columns_start(), 'R2', 2, 'full',
               ('AddField', 'ChangeField', 'RenameField'), ('W2', 'W3'),
               barrier_variants=True)
+        # the referenced primary key is renamed between two changes of
+        # the referring table (the REFERENCES clause must follow)
+        shard('pk-rename-d2', explicit_pk_start(), 'R2', 2, 'lite',
+              ('AddField', 'ChangeField', 'RenameField'), ('W2', 'W3'),
+              rename_pk=True)
         # a relation added to a model that is then renamed twice
         shard('rename-chain-d3', two_model_start(), 'R2', 3, 'full',
               ('AddField', 'RenameModel'), ('W2', 'W3'),
@@ -780,6 +801,9 @@ def tasks_for(tier):
               ('W2', 'W5', 'W3', 'W4'))
         shard('three-field-d3', three_field_start(), 'R2', 3, 'lite',
               NARROW_KINDS, ('W2', 'W3'))
+        shard('pk-rename-full-d3', explicit_pk_start(), 'R2', 3, 'lite',
+              ('AddField', 'ChangeField', 'RenameField'), ('W2', 'W3'),
+              rename_pk=True)
         shard('indexed-d3', indexed_start(), 'R2', 3, 'lite',
               NARROW_KINDS, ('W2', 'W3'))
         shard('indexed-full-d2', indexed_start(), 'R2', 2, 'full',
